@@ -8,6 +8,7 @@ from runner import *   # noqa
 def main():
     path = sys.argv[1]
     case = json.load(open(path))
+    case['__path__'] = path
     kind = case.get('kind')
     if kind == 'op':
         line = op_line(case)
@@ -19,12 +20,8 @@ def main():
             if v:
                 rc = 1
         sys.exit(rc)
-    try:
-        import replay_kinds
-        sys.exit(replay_kinds.replay(case))
-    except ImportError:
-        print('no replayer for case kind %r' % kind)
-        sys.exit(2)
+    import replay_kinds
+    sys.exit(replay_kinds.replay(case))
 
 
 if __name__ == '__main__':
